@@ -29,6 +29,31 @@ PAR = 6
 _memo = {}
 
 
+class locked:
+    """Inter-process lock around everything that touches coq-api/ (Gen files, make, coqc): several
+    property checks may run at the same time. Re-entrant within a process."""
+    _depth = 0
+    _fh = None
+
+    def __enter__(self):
+        import fcntl
+        if locked._depth == 0:
+            os.makedirs(API_BUILD, exist_ok=True)
+            locked._fh = open(os.path.join(API_BUILD, "coq.lock"), "w")
+            fcntl.flock(locked._fh, fcntl.LOCK_EX)
+        locked._depth += 1
+        return self
+
+    def __exit__(self, *a):
+        import fcntl
+        locked._depth -= 1
+        if locked._depth == 0:
+            fcntl.flock(locked._fh, fcntl.LOCK_UN)
+            locked._fh.close()
+            locked._fh = None
+        return False
+
+
 def _write_if_changed(path, text):
     try:
         if open(path).read() == text:
@@ -349,3 +374,200 @@ def _cli():
 
 if __name__ == "__main__":
     _cli()
+
+
+# ------------------------------------------------------------------------------------------------
+# Model reports: evaluate the checker functions per item (used for the model<->rustc cross-check and,
+# when a generated-table theorem breaks, to find the offending item).
+# ------------------------------------------------------------------------------------------------
+_REPORT_PRELUDE = """Require Import Coq.Strings.String Coq.Lists.List Coq.Bool.Bool Coq.NArith.NArith.
+Require Import GAApi.Syntax GAApi.ModelTypes GAApi.ModelWrite GAApi.ModelSigs GAApi.ModelStatic.
+Require Import GAApi.Gen.GenTypes GAApi.Gen.GenWrite GAApi.Gen.GenSigs GAApi.Gen.GenCallGraph.
+Import ListNotations. Open Scope string_scope.
+Set Printing Width 10000000. Set Printing Depth 10000000.
+Definition sb (b : bool) : string := if b then "true" else "false".
+Definition sv (v : variance) : string := match v with Bi => "Bi" | Co => "Co" | Contra => "Contra" | Inv => "Inv" end.
+Definition sov (o : option variance) : string := match o with Some v => sv v | None => "none" end.
+Definition so (o : origin) : string := match o with OBarriered => "Barriered" | OStatic => "Static" | OExclusive => "Exclusive" | OForged => "Forged" end.
+Definition sk (k : proj_kind) : string := match k with PDeref => "Deref" | PIndex => "Index" | PPayload => "Payload" | PUnknown => "Unknown" end.
+Definition sc (c : oclass) : string := match c with Unique => "Unique" | Shared => "Shared" end.
+Definition ctor_name (t : ty) : string :=
+  match t with TPath n _ _ => n | TRef _ _ _ => "Ref" | TPtr _ _ => "Ptr" | TSlice _ => "Slice" | TArray _ => "Array"
+             | TTuple _ => "Tuple" | TParam x => x | _ => "?" end.
+Definition nat_s (n : nat) : string := match n with 0 => "0" | 1 => "1" | 2 => "2" | 3 => "3" | _ => "n" end.
+Definition fq (f : fnsig) : string := fs_owner f ++ "::" ++ fs_name f.
+"""
+
+
+def parse_report(out):
+    """Parse blocks `= ("section", [("k", "v"); ...])` printed by Eval vm_compute."""
+    res = {}
+    for m in re.finditer(r'=\s*\("((?:[^"]|"")*)",\s*(\[.*?\])\)\s*:\s*string \* list', out, re.S):
+        sec, body = m.group(1), m.group(2)
+        pairs = re.findall(r'\("((?:[^"]|"")*)",\s*"((?:[^"]|"")*)"\)', body)
+        res[sec] = [(k.replace('""', '"'), v.replace('""', '"')) for k, v in pairs]
+    return res
+
+
+def model_report(name, evals):
+    """evals: list of (section, coq_term_of_type list (string*string)). Returns (ok, {section: [(k, v)]}, raw)."""
+    body = _REPORT_PRELUDE + "\n".join('Eval vm_compute in ("%s", %s).' % (s, t) for s, t in evals) + "\n"
+    ok, out = coq_eval(name, body)
+    return ok, (parse_report(out) if ok else {}), out
+
+
+BASE_VO = ["Syntax.vo", "ModelTypes.vo", "ModelWrite.vo", "ModelSigs.vo", "ModelStatic.vo",
+           "Gen/GenTypes.vo", "Gen/GenWrite.vo", "Gen/GenSigs.vo", "Gen/GenCallGraph.vo"]
+
+
+def prepare(chk, label):
+    """Regenerate the tables and build the definitions-only part of the Coq project (the model must
+    still run when a proof breaks). Returns (ok, summary)."""
+    ok, detail, summ = translate()
+    chk.correspondence("%s: translator ran on the current tree" % label, ok, detail[-1500:] if not ok else
+                       "files=%s fns=%s impls=%s unknown=%s" % (summ.get("files"), summ.get("fns"), summ.get("impls"), summ.get("unknown")))
+    if not ok:
+        return False, summ
+    if summ.get("unknown"):
+        unk = [l for l in detail.splitlines() if l.startswith("UNKNOWN ")]
+        chk.correspondence("%s: translator classified every item (fails closed otherwise)" % label, False, "\n".join(unk[:20]))
+    ok2, out = coq_build(BASE_VO)
+    chk.obligation("%s: model + regenerated tables compile (definitions only)" % label, ok2, out[-2500:] if not ok2 else "")
+    return ok2, summ
+
+
+def build_and_audit(chk, props_file, theorems):
+    """make Props/<file>.vo (full .vo build), then audit each theorem. Returns {thm: ok}."""
+    vo = props_file[:-2] + ".vo"
+    ok, out = coq_build([vo])
+    if not ok:
+        tail = out[-3000:]
+        for t in theorems:
+            chk.obligation("%s: %s" % (props_file, t), False, "make %s failed:\n%s" % (vo, tail))
+        return {t: False for t in theorems}
+    return audit_props(chk, props_file, theorems)
+
+
+def setup():
+    """Warm-up: build the translator, the host rlib, the twin binary and the whole Coq project."""
+    with locked():
+        _setup()
+
+
+def _setup():
+    t0 = time.time()
+    ok, text, _ = translator_build()
+    vlib.log("[api setup] translator: %s" % ("ok" if ok else "FAILED\n" + text[-800:]))
+    ok, text, summ = translate()
+    vlib.log("[api setup] translate: %s %s" % ("ok" if ok else "FAILED", {k: summ.get(k) for k in ("fns", "impls", "unknown")}))
+    ok, out = coq_build(None, timeout=1500)
+    vlib.log("[api setup] coq build: %s" % ("ok" if ok else "FAILED\n" + out[-1500:]))
+    ok, text, _ = host_build()
+    vlib.log("[api setup] host rlib: %s" % ("ok" if ok else "FAILED\n" + text[-800:]))
+    ok, text, _ = harness_bin("c19_twin")
+    vlib.log("[api setup] c19_twin: %s" % ("ok" if ok else "FAILED\n" + text[-800:]))
+    vlib.log("[api setup] done in %.0fs" % (time.time() - t0))
+
+
+# ------------------------------------------------------------------------------------------------
+# Static facts for C03 / C20
+# ------------------------------------------------------------------------------------------------
+_PATH_SEARCH = """
+Fixpoint bfs_path (fuel : nat) (g : list cg_fn) (work : list (N * list N)) (seen : list N) (bad : list N) : option (list N) :=
+  match fuel with O => None | S f =>
+    match work with
+    | [] => None
+    | (x, p) :: w => if memN x bad then Some (rev (x :: p))
+                     else if memN x seen then bfs_path f g w seen bad
+                     else bfs_path f g (w ++ map (fun y => (y, x :: p)) (succs g x))%list (x :: seen) bad
+    end end.
+Definition show_node (i : N) : string := match node fns i with Some f => cg_owner f ++ "::" ++ cg_name f | None => "?" end.
+Definition show_path (o : option (list N)) : list (string * string) :=
+  match o with Some p => map (fun i => (show_node i, "")) p | None => [] end.
+"""
+
+
+def callgraph_obligations(chk):
+    """C03 (b): the call-graph theorem over the regenerated graph. Adds obligations to chk and, when the
+    theorem breaks, the offending path / method as the obligation's detail. Returns True iff it holds."""
+    with locked():
+        return _callgraph_obligations(chk)
+
+
+def _callgraph_obligations(chk):
+    ok, _ = prepare(chk, "C03 call graph")
+    if not ok:
+        return False
+    res = build_and_audit(chk, "Props/Static.v", ["C03_callgraph"])
+    good = all(res.values())
+    chk.trusted.append("translator-api: name-based over-approximate call graph (rule re-checked in Coq by edge_rule_ok); "
+                       "implicit destructor calls approximated; rustc's &mut exclusivity")
+    if not good:
+        evals = [
+            ("entry_path", "show_path (bfs_path 100000 fns (map (fun e => (e, [])) (entries fns)) [] (forbidden fns))"),
+            ("bad_methods", "map (fun f => (cg_owner f ++ \"::\" ++ cg_name f, \"takes neither &mut self nor self but reaches do_collection\")) "
+                            "(filter (fun f => negb (arena_method_ok fns f)) fns)"),
+            ("edge_rule", "map (fun f => (cg_owner f ++ \"::\" ++ cg_name f, \"edges do not cover the name-based rule\")) "
+                          "(filter (fun f => negb (edge_rule_ok {| n_structs := struct_names; n_aliases := alias_names; n_traits := trait_names |} fns f)) fns)"),
+            ("callbacks", "map (fun f => (fs_name f, sb (callback_borrows_arena f))) arena_fns"),
+            ("unknown", "map (fun s => (s, \"\")) GenCallGraph.unknown_items"),
+        ]
+        body = _REPORT_PRELUDE + _PATH_SEARCH + "\n".join('Eval vm_compute in ("%s", %s).' % e for e in evals)
+        okr, out = coq_eval("c03_report", body)
+        rep = parse_report(out) if okr else {}
+        lines = []
+        if rep.get("entry_path"):
+            lines.append("call path from a &Mutation/&Finalization entry point to a collector function: " +
+                         " -> ".join(k for k, _ in rep["entry_path"]))
+        for k, v in rep.get("bad_methods", []):
+            lines.append("%s %s" % (k, v))
+        for k, v in rep.get("edge_rule", [])[:5]:
+            lines.append("%s: %s" % (k, v))
+        for k, v in rep.get("callbacks", []):
+            if v == "false":
+                lines.append("callback-taking fn `%s` neither borrows an arena nor builds its own context" % k)
+        for k, _ in rep.get("unknown", []):
+            lines.append("unclassified syntax: " + k)
+        chk.obligation("C03_callgraph: offending items in the regenerated call graph", False, "\n".join(lines) or out[-1500:])
+        chk.cov["c03_callgraph_offenders"] = lines
+    return good
+
+
+def statics_obligations(chk):
+    """C20: no statics / thread-locals, owned context fields. Returns True iff it holds."""
+    with locked():
+        return _statics_obligations(chk)
+
+
+def _statics_obligations(chk):
+    ok, _ = prepare(chk, "C20 statics")
+    if not ok:
+        return False
+    res = build_and_audit(chk, "Props/Static.v", ["C20_no_shared_state"])
+    good = all(res.values())
+    chk.trusted.append("translator-api: list of static items / thread_local! uses / field types (fails closed on unknown item macros)")
+    if not good:
+        evals = [
+            ("statics", "map (fun s => (fst (fst s) ++ \" in \" ++ snd s, sb (snd (fst s)))) statics"),
+            ("thread_locals", "map (fun s => (s, \"\")) thread_locals"),
+            ("fields", "flat_map (fun n => match find_decl decls n with Some d => map (fun t => (n, sb (owned 16 decls t))) (decl_field_tys d) | None => [(n, \"missing\")] end) state_structs"),
+            ("ctors", "[(\"Context::new takes no arguments\", sb (fresh_ctor fns \"Context\")); (\"Metrics::new takes no arguments\", sb (fresh_ctor fns \"Metrics\"))]"),
+            ("unknown", "map (fun s => (s, \"\")) GenCallGraph.unknown_items"),
+        ]
+        okr, rep, out = model_report("c20_report", evals)
+        lines = []
+        for k, v in rep.get("statics", []):
+            lines.append("static item %s (mut=%s)" % (k, v))
+        for k, _ in rep.get("thread_locals", []):
+            lines.append("thread-local: " + k)
+        bad_fields = [k for k, v in rep.get("fields", []) if v != "true"]
+        if bad_fields:
+            lines.append("non-owned field type(s) in: " + ", ".join(sorted(set(bad_fields))))
+        for k, v in rep.get("ctors", []):
+            if v != "true":
+                lines.append("NOT: " + k)
+        for k, _ in rep.get("unknown", []):
+            lines.append("unclassified syntax: " + k)
+        chk.obligation("C20_no_shared_state: offending items", False, "\n".join(lines) or out[-1500:])
+        chk.cov["c20_static_offenders"] = lines
+    return good
